@@ -112,7 +112,7 @@ func checkC08(p *load.Program, r *kit.Report) {
 			return strings.HasPrefix(o.Construct, "ProcessHeader/foreign-split-loop")
 		}, "GUARD-DOM")
 	importRules(p, r, "C17", "`marked invalid` is answered for every hash still on the list: unmarking one hash must leave the others listed", 1, nil, "REMOVE-ONE")
-	importRules(p, r, "C02", "the `bad work or bits` verdict is given for a header whose bits size byte is below 3 whether or not difficulty checks are enabled: past the guard such a header reaches ConvertToDifficulty in NewBranch/Add, where it is accepted with a zero target (maximal work) or indexes out of range in the middle of ProcessHeader", 3,
+	importRules(p, r, "C02", "the `bad work or bits` verdict is given for a header whose bits size byte is below 3 whether or not difficulty checks are enabled: past the guard such a header reaches ConvertToDifficulty in NewBranch/Add, where it is accepted with a zero target (maximal work) or indexes out of range in the middle of ProcessHeader", 1,
 		func(o *kit.Obligation) bool { return strings.HasPrefix(o.Construct, "ProcessHeader/") }, "DEP-INDEX")
 	importRules(p, r, "C02", "the `bad work or bits` verdict: the required bits are computed on the branch the header extends (its parent's branch), at the height of the header", 1,
 		func(o *kit.Obligation) bool { return strings.Contains(o.Construct, "bits-provenance") }, "GUARD-DOM")
